@@ -351,10 +351,7 @@ def descr_num(eng, res, rule="R-DESCR-NUM"):
 def _is_empty_lit(l, pname) -> bool:
     """literal says: the pending text `pname` is empty"""
     if l[0] == "num":
-        _, lin, op, c = l
-        if lin == f"1*Call(Name('len'), [Name('{pname}')], [])":
-            return (op, float(c)) in (("==", 0.0), ("<=", 0.0), ("<", 1.0))
-        return False
+        return False  # emptiness tests are canonical `not <name>` literals (formula.Canon)
     if l[0] in ("complex", "opaque", "const"):
         return False
     key, pol = l
@@ -420,8 +417,8 @@ def scan_order(eng, res, rule="R-SCAN-ORDER"):
             pend.add(a.target.id)
     cur = None
     for l in lits(scan.test, True):
-        if l[0] == "num" and l[2] in (">", "!=", ">=") and l[1].startswith("1*Call(Name('len'), [Name('"):
-            cur = l[1].split("Name('")[2].split("'")[0]
+        if l[0] not in ("num", "complex", "opaque", "const") and l[0][0] == "truthy" and l[1] is True and l[0][1].startswith("Name('"):
+            cur = l[0][1].split("'")[1]  # `while len(cur) > 0` / `while cur`
     if len(lists) != 1 or len(pend) != 1 or cur is None:
         raise AnalysisError(f"SmilesToken.__init__: scanner roles not identified (lists {lists}, pending {pend}, cursor {cur})")
     L, P = next(iter(lists)), next(iter(pend))
